@@ -20,7 +20,8 @@ Inductive case :=
   | CSingle (n : Z) (fh : list Z) (wlo : option Z) (o : impl_out)
   | CCutoff (n : Z) (fh : list Z) (w : Z) (cutoffs : list Z) (o : impl_out)
   | CTtsSize (n : Z) (te tr : option Z) (o : option (list Z * list Z))
-  | CTtsFh (n : Z) (fh : list Z) (o : option (list Z * list Z)).
+  | CTtsFh (n : Z) (fh : list Z) (o : option (list Z * list Z))
+  | CTtsFhAbs (lo n : Z) (fh : list Z) (o : option (list Z * list Z)).
 
 Definition agree (m : res (list split)) (mc : list Z) (o : impl_out) : bool :=
   match m, o with
@@ -43,6 +44,7 @@ Definition check (c : case) : bool :=
   | CCutoff n fh w cs o => agree (cutoff_split n fh w cs) cs o
   | CTtsSize n te tr o => agree2 (tts_positions n te tr) o
   | CTtsFh n fh o => agree2 (tts_fh_relative n fh) o
+  | CTtsFhAbs lo n fh o => agree2 (tts_fh_absolute lo n fh) o
   end.
 
 Fixpoint mism (cs : list (Z * case)) : list Z :=
